@@ -42,6 +42,30 @@ FIXED = [
 ]
 
 OPEN = [
+ {"id": "KF-C04-D24-stale-data-functions", "property": "C04", "status": "open", "design_item": "D24",
+  "match": {"kind": "stale_data_functions", "sampler": "static_finite_interval", "data_functions": True},
+  "what": "a condition with a static sampler that has a FINITE resample_interval and data functions evaluates the data functions once at construction; after the sampler resampled, the residual still receives the data of the first point set (rows no longer belong to the sampled points)",
+  "witness": "PINNCondition(module, RandomUniformSampler(D, 20).make_static(resample_interval=3), residual(u, f), data_functions={'f': f}): forward() calls 4.. use new points but f of the first point set",
+  "why_not_fixed": "the pre-evaluation is the point of the static branch; a correct version has to notice resampling (compare the returned Points object) in every condition's forward - a change in 6 classes"},
+ {"id": "KF-C04-D25-periodic-static-data", "property": "C04", "status": "open", "design_item": "D25",
+  "match": {"kind": "exception", "cond": "PeriodicCondition", "static": True, "data_functions": True, "exc": "AssertionError", "site": "join", "phase": "forward"},
+  "what": "PeriodicCondition with a static non-periodic sampler and data functions: construction samples through the product samplers, which caches product points in the static left/right samplers; forward() then raises AssertionError in Points.join",
+  "witness": "PeriodicCondition(module, Interval(x), residual, non_periodic_sampler=GridSampler(Interval(t), 5).make_static(), data_functions={'f': f}).forward()",
+  "why_not_fixed": "needs a redesign of how the periodic condition pre-evaluates data on its two product samplers"},
+ {"id": "KF-C14-D25-periodic-static-data", "property": "C14", "status": "open", "design_item": "D25",
+  "match": {"kind": "exception", "cond": "PeriodicCondition", "static": True, "data_functions": True, "exc": "AssertionError", "site": "join", "phase": "forward"},
+  "what": "same mechanism as KF-C04-D25-periodic-static-data, seen by the isolation monitor (the condition fails alone and in company)",
+  "witness": "see KF-C04-D25-periodic-static-data", "why_not_fixed": "see KF-C04-D25-periodic-static-data"},
+ {"id": "KF-C04-integro-static-data-layout", "property": "C04", "status": "open", "design_item": "D54",
+  "match": {"kind": "data_function_layout", "cond": "integro", "sampler": ["static_inf", "static_finite_interval"], "data_functions": True},
+  "what": "IntegroPINNCondition with a static sampler and data functions: the pre-evaluated data have shape (n, d) while all other residual arguments are laid out as (n, 1, d); u + f broadcasts to (n, n, d), every point is paired with the data of every other point and the loss is wrong",
+  "witness": "IntegroPINNCondition(FCN(X*S,U), RandomUniformSampler(A*Sd,5).make_static(), res, GridSampler(Sd,4), data_functions={'f': lambda x: x[...,:1]}): f arrives as (5,1), u as (5,1,1)",
+  "why_not_fixed": "the static pre-evaluation in the shared helper does not know the layout the integro condition uses in forward(); needs a condition specific override"},
+ {"id": "KF-C04-joined-parameters", "property": "C04", "status": "open", "design_item": "D55",
+  "match": {"kind": "exception", "parameter": "joined", "exc": "TypeError", "phase": "construct", "site": "__init__"},
+  "what": "several learnable Parameters connected with .join() (as the Parameter docstring prescribes) cannot be passed to a condition: register_parameter raises TypeError because the joined Points holds a plain (non-leaf) tensor",
+  "witness": "p = Parameter(1.0, R1('a')).join(Parameter(2.0, R1('b'))); PINNCondition(module, sampler, residual, parameter=p) -> TypeError",
+  "why_not_fixed": "registering the individual Parameters needs a different representation of joined parameters (the join produces a new tensor)"},
  {"id": "KF-C11-dependent-product-n1", "property": "C11", "status": "open", "design_item": "D30",
   "match": {"kind": "not_uniform", "dep_product": True, "mode": "small", "nsmall": 1},
   "what": "ProductDomain whose first factor depends on the second, sample_random_uniform(n=1): _sample_uniform_b_points returns the single partner value without the volume-weighted acceptance (the shortcut for one volume), so the partner coordinate is uniform on the second factor instead of weighted by the measure of the first factor",
@@ -110,6 +134,7 @@ OPEN = [
 ]
 
 DROP = {"KF-C16-unique-oversized-batch"}
+KEEP_EXTRA = False
 
 def main():
     path = os.path.join(ROOT, "KNOWN_FINDINGS.json")
@@ -117,7 +142,7 @@ def main():
     if os.path.exists(path):
         old = json.load(open(path))
         extra_open = [f for f in old.get("findings", []) if f.get("status") == "open" and f.get("id") not in {o["id"] for o in OPEN}
-                      and f.get("id") not in DROP]
+                      and f.get("id") not in DROP] if KEEP_EXTRA else []
     out = []
     for props, commit, item, what in FIXED:
         for p in props[:1]:
